@@ -34,7 +34,9 @@ CLAIMS['C04'] = dict(
     design_ref='DESIGN.md 5 C04')
 CLAIMS['C07'] = dict(
     text='Unbounded proof of the lookup half (offset = col - dst_col exactly when the token is a range token on the queried line, else 0; get_src_col adds it '
-         'saturating; no underflow) and of the range-bitfield writer/reader pair against a reference bitfield encoding.',
+         'saturating; no underflow), of the range-bitfield writer/reader pair against a reference bitfield encoding, and of the round trip: the reference rangeMappings text '
+         'of a token list hands the reference reader, at (line, segment position), the flag of the token written there (lemma_range_text_matches_tokens), so reading back the '
+         'two reference texts returns every token with its range flag (lemma_document_roundtrip_with_ranges, u15_inverse).',
     note=_TB + 'bitvec is behind assumed contracts (LSB-first, little-endian).',
     design_ref='DESIGN.md 5 C07')
 
@@ -61,20 +63,27 @@ CLAIMS['C13'] = dict(
 CLAIMS['C03'] = dict(
     text='Unbounded proof that the real serialize_mappings (and encode_vlq_diff / encode_vlq under it) writes exactly the reference "mappings" string of the '
          "map's token list: ';' per line advanced, ',' between segments, per-line column reset, running source/line/column/name deltas, 1/4/5 fields, exact "
-         'consecutive duplicates dropped (spec/mappings_enc.rs, written from the format). PARTIAL: the field plumbing of as_raw_sourcemap and the serde '
-         'attributes are not under contract yet (see evidence.not_covered).',
+         'consecutive duplicates dropped (spec/mappings_enc.rs, written from the format); and "an independent decoder reads it back": the reference reader '
+         '(spec/mappings_dec.rs, an independent reading of the format) applied to the reference string returns the token list without exact consecutive duplicates '
+         '(lemma_mappings_roundtrip, u15_inverse). PARTIAL: the field plumbing of as_raw_sourcemap and the serde attributes are bounded only (raw_keys).',
     note=_TB + 'Requires the map invariant "tokens sorted" (proved for every constructor in C04). serde_json writing the string faithfully is assumed.',
     design_ref='DESIGN.md 5 C03')
 CLAIMS['C01'] = dict(
-    text='PARTIAL, by composition of contracts: the writer emits the reference encoding (C03 contract), the VLQ layer is proved inverse (C11 lemmas: decode(encode(xs)) == xs), '
-         'raw sources + root are what the map stores and re-derives (C13 cache invariant). The mapping-level inverse lemma decode(encode(ts)) == dedup(ts) and the '
-         'as_raw_sourcemap / decode_regular field plumbing are not yet under contract (evidence.not_covered).',
+    text='Unbounded, by composition of contracts: serialize_mappings emits the reference encoding (u5_encode), the mapping loop of decode_regular computes the reference '
+         'reading (u4_decode), and the reference reading of the reference encoding of a sorted, well-formed token list is that list without exact consecutive duplicates, token '
+         'by token equivalent -- generated position, source, name, range flag given matching range bits, original position where there is a source (lemma_mappings_roundtrip / '
+         '_with_ranges in u15_inverse, by induction over the tokens through the split structure of the string; the VLQ layer by the C11 inverse lemmas); raw sources + root are '
+         'what the map stores and re-derives (C13 cache invariant); the tail of decode_regular builds the map from the decoded parts (u10_tail). PARTIAL: as_raw_sourcemap '
+         'field plumbing and serde_json are outside the contracts (bounded stand-in roundtrip).',
     note=_TB + 'serde_json (de)serialisation assumed faithful.',
     design_ref='DESIGN.md 5 C01')
 CLAIMS['C02'] = dict(
-    text='PARTIAL: tokens come out ordered (SourceMap::new returns a sorted permutation), the sourceRoot joining rule (prefix_source / set_source_root / get_source against '
-         'prefix_spec), VLQ digits read per the reference decoder, and the mapping loop of decode_regular proved panic-free with every stored index resolving. The '
-         'exact per-line / global accumulator semantics against a reference mappings decoder, kind dispatch and lenient conversions are not yet under contract.',
+    text='Unbounded proof: the mapping loop of decode_regular equals the reference reading of the format (per-line column reset, running source / line / column / name '
+         'accumulators, 1/4/5 fields, empty lines and segments, range bits by segment position; indices computed in mathematical integers); the tail of decode_regular (null '
+         'sources, numeric names, non-string file, debug_id over debugId, source root, ignore list) against the statement; decode_common dispatch (sections -> index, '
+         'x_facebook_sources -> Hermes, else regular); decode_index sorts sections by offset and rejects overlapping ones; SourceMap::new returns a sorted permutation; the '
+         'sourceRoot joining rule (prefix_source / set_source_root / get_source against prefix_spec). PARTIAL: the six `let` lines that unpack the raw document are checked '
+         'textually only; decode_hermes is bounded only.',
     note=_TB + 'serde_json assumed.',
     design_ref='DESIGN.md 5 C02')
 
@@ -175,10 +184,10 @@ NOT_COVERED = {
             'flatten (+ off_col / + off_line overflow, design-phase defect D6), rewrite, adjust_mappings, range bitfield writer (D4), decode_hermes', 'allocation in proportion to the input; wall-clock (only termination is proved)'],
     'C08': ['agreement lemma lookup vs flatten (needs: flattened tokens of properly nested sections are already sorted, and SourceMap::lookup_token on the concatenation): bounded stand-in index_flatten only', 'DecodedMap::lookup_token dispatch (assumed naming)', 'flatten_and_rewrite (composition of two proved functions, not itself under contract)'],
     'C14': ['decode_hermes function-map decoding (running column/name/line state)', 'get_original_function_name wrapper', 'stability under serialise/decode'],
-    'C01': ['mapping-level inverse lemma decode(encode(ts)) == dedup(ts) (spec level)', 'as_raw_sourcemap field plumbing (SourceMap / SourceMapIndex / Hermes): bounded stand-in roundtrip only', 'serde_json layer'],
+    'C01': ['as_raw_sourcemap field plumbing (SourceMap / SourceMapIndex / Hermes): bounded stand-in roundtrip only', 'serde_json layer'],
     'C02': ['the six `let` lines of decode_regular that unpack the raw document (checked textually, not verified)', 'termination of the decode_index / decode_common recursion (bounded by serde_json)', 'decode_hermes'],
-    'C03': ['as_raw_sourcemap field plumbing and the serde skip_serializing_if attributes', 'index-map sections', '"an independent decoder reads it back" needs the mapping-level inverse lemma'],
-    'C07': ['the mapping-level composition (tokens -> mappings string -> tokens keeps is_range) rests on the bitfield inverse lemma (spec/rmi_inverse.rs, proved) plus the bounded stand-in rmi_roundtrip for the document plumbing'],
+    'C03': ['as_raw_sourcemap field plumbing and the serde skip_serializing_if attributes', 'index-map documents (sections array): bounded only'],
+    'C07': ['document plumbing (as_raw_sourcemap writes the key only when a range token exists; decode_regular hands the strings to the loop): bounded stand-in rmi_roundtrip; the token-level round trip with flags is proved (lemma_document_roundtrip_with_ranges)'],
     'C11': ['an independent syntactic characterisation of canonical texts (canonical is defined as the image of the reference encoder)'],
     'C12': ['detection predicates is_sourcemap / is_sourcemap_slice wiring', 'decode_data_url'],
     'C13': ['"serialisation writes raw names plus root" (as_raw_sourcemap)', 'strip_prefixes'],
